@@ -67,6 +67,9 @@ pub struct RadixSort {
 }
 
 impl RadixSort {
+    /// Largest value range for which counting sort is used on small inputs
+    const COUNTING_SORT_MAX_RANGE: usize = 1 << 16;
+
     /// Create a new radix sort instance
     pub fn new() -> Self {
         Self::with_config(RadixSortConfig::default())
@@ -170,8 +173,14 @@ impl RadixSort {
 
     fn sort_u32_sequential(&self, data: &mut [u32]) -> Result<()> {
         if data.len() <= self.config.use_counting_sort_threshold {
-            self.counting_sort_u32(data);
-            return Ok(());
+            // Counting sort allocates one counter per possible value up to the maximum,
+            // so it is only used when the value range is small; otherwise a handful of
+            // elements with a large value would allocate up to 32 GiB of counters.
+            let max_val = data.iter().copied().max().unwrap_or(0) as usize;
+            if max_val < Self::COUNTING_SORT_MAX_RANGE {
+                self.counting_sort_u32(data);
+                return Ok(());
+            }
         }
 
         let radix = 1usize << self.config.radix_bits;
